@@ -10,7 +10,7 @@ import io, os
 
 from ..common import SPEC, Scratch, rng, MachineryError, B
 from ..report import Report
-from .. import tlc, bf3lib as L, bec2lib as B2, bec2gen as G
+from .. import tlc, bf3lib as L, bec2lib as B2, bec2gen as G, errpaths as E
 from ..oracle_openssl import Oracle
 from . import bf3common as C3, bec2common as C
 
@@ -140,6 +140,10 @@ def run(tier):
                 L.rec_read(rec, t2, key, True, False, wd, auth=rec.last_written)
             except Exception:                              # noqa: BLE001 -- a failing read is judged by the read events above
                 pass
+        # error-path histories: a refused write (over-long entry), then the repaired object - its encrypted components
+        # must still be stored as ciphertext; and contents longer than 256 / 4096 bytes
+        E.bf3_failed_then_good(rec, r, wd, 6 if tier == "quick" else 60, enc=True)
+        E.bf3_large(rec, r, wd, (300, 4128) if tier == "quick" else (257, 300, 1000, 4096, 4128, 8200))
         # components produced by the real set_config
         for _ in range(20 if tier == "quick" else 300):
             f, cfg = real_set_config_file(r)
@@ -190,6 +194,19 @@ def run(tier):
                         ev["emitted"] = L.chars(s.getvalue())
                         rec.add(ev)
                     bec2format.register_AES128(saved)
+                    # the cipher is back: the SAME objects written again must come out encrypted (nothing left over from the failure)
+                    k = bytes(range(1, 17))
+                    L.rec_to_binary(rec, f, 5, k)
+                    t = L.rec_write(rec, f, k, False, wd)
+                    L.rec_read(rec, t, k, True, False, wd, auth=rec.last_written)
+                    if t:
+                        rec.add({"op": "c06.scan", "text": L.chars(t), "needles": [{"name": "configuration-plaintext", "bytes": B(blob)}]})
+                    s2 = io.StringIO()
+                    try:
+                        bec.write_file(s2, [])
+                        rec.add({"op": "c06.scan", "text": L.chars(s2.getvalue()), "needles": [{"name": "configuration-plaintext", "bytes": B(blob)}]})
+                    except Exception:                            # noqa: BLE001 -- bec2 writes are judged by C02/C07
+                        pass
         finally:
             bec2format.register_AES128(saved)
         # binding self-tests: a scan event whose needle IS present, a nocipher event that "succeeded"
